@@ -140,7 +140,7 @@ type pipeListener struct {
 }
 
 func newPipeListener() *pipeListener {
-	return &pipeListener{ch: make(chan net.Conn), closed: make(chan struct{})}
+	return &pipeListener{ch: make(chan net.Conn, 16), closed: make(chan struct{})}
 }
 func (l *pipeListener) Accept() (net.Conn, error) {
 	select {
